@@ -59,6 +59,10 @@ def instances(tier, seed):
                 n += 1
     for method in ('MS', 'DC'):
         add(kind='signal', order=2, method=method, N=2, grid=fam.G_UNI, T=('num', Fr(2)), refine=2, der=True)
+    # bspline signals INSIDE the dynamics next to other parameters / variables of the stage (layout of the integrator's parameter vector)
+    for what in ('parameter', 'variable'):
+        for N, grid, T in ((3, fam.G_UNI, ('num', Fr(2))), (2, fam.G_GEO_LOC, ('free', Fr(3, 2)))):
+            add(kind='signal-dynamics', what=what, order=[1, 2][N % 2], N=N, grid=grid, T=T)
     for rep in range(2 if tier == 'quick' else 6):
         add(kind='chain', N=[2, 3, 4][rep % 3], grid=[fam.G_UNI, fam.G_GEO_LOC][rep % 2], T=[('num', Fr(2)), ('free', Fr(3, 2))][rep % 2], refine=[2, 3][rep % 2])
     return items
@@ -402,7 +406,77 @@ def run_chain(item):
     return ctx.result('chain N=%d %s %s' % (N, Tk[0], item['grid'][0]), {'kind': 'chain', 'N': N, 'refine': refine, 'T': Tk[0], 'proved': len(ctx.proved)})
 
 
+def run_signal_dynamics(item):
+    """MultipleShooting gap rows with a bspline signal inside the right-hand side, next to a global parameter, a per-interval
+    parameter and a global variable: X[k+1] - X[k] - h_k (a*pc_k*U[k] + w + sig(t_k)) with sig(t_k) the sampled signal at the interval start"""
+    import z3
+    from ..extract import Ocp, MultipleShooting, FreeTime, make_grid
+    order, N, what, Tk = item['order'], item['N'], item['what'], item['T']
+    ctx = Ctx()
+    key = 'signal-dynamics|%s|order=%d' % (what, order)
+    with quiet():
+        ocp = Ocp(t0=0.5, T=FreeTime(float(Tk[1])) if Tk[0] == 'free' else float(Tk[1]))
+        x = ocp.state()
+        u = ocp.control()
+        a = ocp.parameter()
+        pc = ocp.parameter(grid='control')
+        w = ocp.variable()
+        ncoef = N + order
+        if what == 'parameter':
+            sig = ocp.parameter(grid='bspline', order=order)
+            ocp.set_value(sig, ca.DM([0.5 + 0.25 * j for j in range(ncoef)]).T)
+        else:
+            sig = ocp.variable(grid='bspline', order=order)
+        ocp.set_value(a, 1.5)
+        ocp.set_value(pc, ca.DM([2.0 + j for j in range(N)]).T)
+        ocp.set_der(x, a * pc * u + w + sig)
+        ocp.subject_to(ocp.at_t0(x) == 0)
+        ocp.add_objective(ocp.integral(u * u) + w * w + ocp.at_tf(x) + ocp.T)
+        ocp.method(MultipleShooting(N=N, M=1, intg='expl_euler', grid=make_grid(item['grid'])))
+        ocp.solver('ipopt')
+        ts, xs = ocp.sample(x, grid='control')
+        us = ocp.sample(u, grid='control-')[1]
+        ss = ocp.sample(sig, grid='control')[1]
+        pcs = ocp.sample(pc, grid='control-')[1]
+        opti_ = ocp._method.opti
+        outs = [ts, xs, us, ss, pcs, ocp.value(a), ocp.value(w), opti_.g]
+        prog, zin, out = _trace(ocp, outs, ctx)
+        # which rows are equalities with zero bounds (bounds may be infinite: evaluated numerically, not translated)
+        lbv = np.array(opti_.debug.value(opti_.lbg, opti_.initial())).flatten()
+        ubv = np.array(opti_.debug.value(opti_.ubg, opti_.initial())).flatten()
+        eqrow = [bool(lbv[i] == 0 and ubv[i] == 0) for i in range(len(lbv))]
+    tz, xz, uz, sz, pz, az, wz, gz = out[0], out[1], out[2], out[3], out[4], out[5][0], out[6][0], out[7]
+    fin = [[0.37 + 0.013 * (j + 7 * gi) for j in range(len(grp))] for gi, grp in enumerate(zin)]
+    fo = prog.run(ctx.fdom, fin)
+    for k in range(N):
+        want = xz[k + 1] - xz[k] - (tz[k + 1] - tz[k]) * (az * pz[k] * uz[k] + wz + sz[k])
+        wantf = fo[1][k + 1] - fo[1][k] - (fo[0][k + 1] - fo[0][k]) * (fo[5][0] * fo[4][k] * fo[2][k] + fo[6][0] + fo[3][k])
+        cands = [i for i in range(len(gz)) if abs(abs(fo[7][i]) - abs(wantf)) <= 1e-9 * max(1.0, abs(wantf)) and eqrow[i]]
+        ok = False
+        for i in cands:
+            for sgn in (1, -1):
+                ctx.s.push()
+                ctx.s.add(z3.simplify(gz[i] - sgn * want) != 0)
+                r = str(ctx.s.check())
+                ctx.s.pop()
+                ctx.stats[r] += 1
+                ctx.stats['queries'] += 1
+                if r == 'unsat':
+                    ok = True
+                    break
+            if ok:
+                break
+        if ok:
+            ctx.proved.append('gap row of interval %d == X[k+1]-X[k]-h(a pc_k u_k + w + sig(t_k))' % k)
+        else:
+            ctx.viol.append({'property': PROP, 'key': key, 'label': 'gap[k=%d]' % k,
+                             'detail': 'no equality row of the NLP equals the explicit-Euler gap residual with the bspline %s evaluated at the interval start next to the global parameter, the per-interval parameter and the global variable (%d numerically close candidates)' % (what, len(cands))})
+    return ctx.result('signal-dynamics %s order=%d N=%d' % (what, order, N), {'kind': 'signal-dynamics', 'what': what, 'order': order, 'N': N, 'T': Tk[0], 'grid': item['grid'][0], 'proved': len(ctx.proved)})
+
+
 def run(item):
+    if item['kind'] == 'signal-dynamics':
+        return run_signal_dynamics(item)
     if item['kind'] == 'kernel':
         return run_kernel(item)
     if item['kind'] == 'chain':
